@@ -219,13 +219,17 @@ class PseudoOperand(Operand):
         return self
 
     def translate(self):
+        if self.instruction.mnemonic in ["FCB", "FDB", "RMB"] and not self.value.is_numeric() and \
+                not self.value.is_multi_byte() and not self.value.is_multi_word():
+            raise OperandTypeError("[{}] requires a numeric value".format(self.instruction.mnemonic))
+
         if self.instruction.mnemonic == "FCB":
             return CodePackage(
                 additional=self.value,
                 size=self.value.byte_len(),
                 max_size=self.value.byte_len()
             ) if self.value.is_multi_byte() else CodePackage(
-                additional=NumericValue(self.value.int, size_hint=2),
+                additional=NumericValue(int(self.value.hex_fixed(2), 16), size_hint=2),
                 size=1,
                 max_size=1
             )
@@ -236,7 +240,7 @@ class PseudoOperand(Operand):
                 size=self.value.byte_len(),
                 max_size=self.value.byte_len()
             ) if self.value.is_multi_word() else CodePackage(
-                additional=NumericValue(self.value.int, size_hint=4),
+                additional=NumericValue(int(self.value.hex_fixed(4), 16), size_hint=4),
                 size=2,
                 max_size=2
             )
